@@ -95,6 +95,13 @@ class FS:
             self.begin_op(f"write {name}")
             self.files[name] = PARTIAL  # created / truncated
             return _WriteHandle(self, name)
+        if "a" in mode:
+            # append (seed C27d): a missing file is created; existing content stays in front of what is written
+            self.begin_op(f"append {name}")
+            if not self.exists(name):
+                self.files[name] = PARTIAL
+                return _WriteHandle(self, name)
+            return _AppendHandle(self, name)
         if not self.exists(name):
             raise FileNotFoundError(name)
         return _ReadHandle(self, name)
@@ -126,6 +133,14 @@ class _WriteHandle:
         if et is None:
             self.close()
         return False
+
+
+class _AppendHandle(_WriteHandle):
+    """Appending a pickle to existing content: a partial file stays unloadable, a complete one
+    still loads as its FIRST pickle (pickle.load stops there), i.e. keeps its old version."""
+
+    def close(self):
+        pass
 
 
 class _ReadHandle:
